@@ -153,6 +153,8 @@ func runC14(c *eng.Ctx) {
 	p := c.P
 	c.Rule("R14.5", "K1")
 	ruleEveryBatchedMessageWasValidated(c)
+	ruleCreateIsStartable(c)
+	ruleNegativeSettingsTakeTheDefault(c)
 
 	// ---- R14.1 bounds on bytes that arrive from NATS
 	c.Rule("R14.1", "K9")
